@@ -7,7 +7,9 @@
 package main
 
 import (
+	"encoding/json"
 	"fmt"
+	"strings"
 	"os"
 	"sort"
 	"strconv"
@@ -26,6 +28,58 @@ func seed() uint64 {
 		}
 	}
 	return 1
+}
+
+func vary(p mon.Property, path string, specs []string) int {
+	rp, err := mon.LoadReplay(path)
+	if err != nil {
+		fmt.Println(err)
+		return 2
+	}
+	run := func(label string, m map[string]any) {
+		b, _ := json.Marshal(m)
+		d, err := p.Decode(b)
+		if err != nil {
+			fmt.Println(label, "decode:", err)
+			return
+		}
+		r := mon.SafeExec(p, d)
+		msg := r.Msg
+		if len(msg) > 110 {
+			msg = msg[:110]
+		}
+		fmt.Printf("%-28s %-12s %s %s\n", label, r.V, r.Class, msg)
+	}
+	var base map[string]any
+	dec := json.NewDecoder(strings.NewReader(string(rp.Desc)))
+	dec.UseNumber()
+	if err := dec.Decode(&base); err != nil {
+		fmt.Println(err)
+		return 2
+	}
+	run("base", base)
+	for _, sp := range specs {
+		kv := strings.SplitN(sp, "=", 2)
+		if len(kv) != 2 {
+			continue
+		}
+		for _, v := range strings.Split(kv[1], ",") {
+			m := map[string]any{}
+			for k, x := range base {
+				m[k] = x
+			}
+			var val any
+			if err := json.Unmarshal([]byte(v), &val); err != nil {
+				val = v
+			}
+			if _, isF := val.(float64); isF {
+				val = json.Number(v)
+			}
+			m[kv[0]] = val
+			run(kv[0]+"="+v, m)
+		}
+	}
+	return 0
 }
 
 func main() {
@@ -80,6 +134,14 @@ func main() {
 			os.Exit(2)
 		}
 		os.Exit(mon.RunReplay(p, os.Args[3]))
+	case "vary":
+		// vcheck vary <Cxx> <replay> field=v1,v2,... [field2=...]: re-executes
+		// the stored case with one field substituted at a time (triage aid)
+		p, ok := props.All[os.Args[2]]
+		if !ok {
+			os.Exit(2)
+		}
+		os.Exit(vary(p, os.Args[3], os.Args[4:]))
 	case "worker":
 		if len(os.Args) < 8 {
 			os.Exit(2)
